@@ -334,10 +334,19 @@ FamMulti(p) ==
                               <<SIf1(Bin(">", V("n"), Lit(50)), <<SRet(<<V("n"), Str("big"), Bool(TRUE)>>)>>), SRet(<<Bin("*", V("n"), Lit(2)), Str("small"), Bool(FALSE)>>)>>)>>,
                          <<SDef2(<<"v", "s", "ok">>, Call(V("info"), <<TL(k, 4)>>)), SPr(<<PV(V("v")), PV(V("s")), PV(V("ok"))>>),
                            SDef2(<<"w", "_", "ok2">>, Call(V("info"), <<TL(k, 1)>>)), SPr(<<PV(V("w")), PT(V("w")), PV(V("ok2"))>>)>>)
+        [] p.s = 6 -> PF(<<Fn("say", <<Par("s", TStr)>>, <<TInt>>, <<SPr(<<PL("say"), PV(V("s"))>>), SRet(<<LenE(V("s"))>>)>>),      \* operands in the order written
+                           Fn("two", <<>>, <<TInt, TInt>>, <<SRet(<<Call(V("say"), <<Str("a")>>), Call(V("say"), <<Str("ab")>>)>>)>>),
+                           Fn("add", <<Par("a", TInt), Par("b", TInt)>>, <<TInt>>, <<SRet(<<Bin("+", V("a"), V("b"))>>)>>)>>,
+                         <<SDef2(<<"x", "y">>, Call(V("two"), <<>>)), SPr(<<PV(V("x")), PV(V("y"))>>),
+                           SPr(<<PV(Call(V("add"), <<Call(V("say"), <<Str("b")>>), Call(V("say"), <<Str("go")>>)>>))>>),
+                           SPr(<<PV(Bin("-", Call(V("say"), <<Str("x")>>), Call(V("say"), <<Str("xy")>>)))>>)>>)
+        [] p.s = 7 -> PF(<<Fn("say", <<Par("s", TStr)>>, <<TInt>>, <<SPr(<<PL("say"), PV(V("s"))>>), SRet(<<LenE(V("s"))>>)>>)>>,               \* parallel definition / assignment with calls
+                         <<SDefP(<<"a", "b">>, <<Call(V("say"), <<Str("a")>>), Call(V("say"), <<Str("ab")>>)>>), SPr(<<PV(V("a")), PV(V("b"))>>),
+                           SAsg2(<<V("a"), V("b")>>, <<Call(V("say"), <<Str("abc")>>), V("a")>>), SPr(<<PV(V("a")), PV(V("b"))>>)>>)
         [] OTHER   -> PF(<<FnVar("join", <<Par("sep", TStr), Par("xs", TSlice(TStr))>>, <<TStr>>,
                               <<SDef("t", Str("")), SForR("", "i", "x", V("xs"), <<SIf1(Bin(">", V("i"), Lit(0)), <<SOpa(V("t"), "+", V("sep"))>>), SOpa(V("t"), "+", V("x"))>>), SRet(<<V("t")>>)>>)>>,
                          <<SPr(<<PL("j"), PV(Call(V("join"), <<Str("-")>>)), PV(Call(V("join"), <<Str("-"), Str("a")>>)), PV(Call(V("join"), <<Str("+"), Str("a"), Str("b"), Str("go")>>))>>)>>)
-MultiIdx == { p \in [fam : {"multi"}, k : KSel(13, 3), s : 1..5] : p.s # 5 \/ p.k = MinOf(KSel(13, 3)) }
+MultiIdx == { p \in [fam : {"multi"}, k : KSel(13, 3), s : 1..8] : p.s \in 1..4 \/ p.k = MinOf(KSel(13, 3)) }
 
 \* ------------------------------------------------------------------ family "defer": defer / panic / recover
 \* p: s shape, d depth of the panic (1..3), r level that recovers (0 none, 1..d)
